@@ -94,3 +94,14 @@ Theorem C04_ok_reflects : forall info mem plans,
   fits info mem plans -> c04_plans_ok info mem plans = true.
 Proof. exact fits_ok. Qed.
 Print Assumptions C04_ok_reflects.
+
+(* ... and therefore holds of everything the model of GetCPUPlans returns *)
+Theorem C04_ok_on_model : forall sortf,
+  (forall l, exists l', sortf l = Ok l' /\ Permutation l' l) ->
+  forall info origin base maxfrag req numa_order fuel plans,
+  get_cpu_plans_g sortf info origin base maxfrag req numa_order fuel = Ok plans ->
+  wf_maps info -> NoDup numa_order -> ~ In EmptyString numa_order -> 0 < base ->
+  0 <= rq_mem_req req -> 0 <= nr_mem (get_available_nofloat info) ->
+  c04_plans_ok info (rq_mem_req req) plans = true.
+Proof. exact plans_ok_on_model. Qed.
+Print Assumptions C04_ok_on_model.
